@@ -8,11 +8,11 @@ VL == INSTANCE VerdictLib
 
 VARIABLES l, verdicts, nasserted
 tvars == <<l, verdicts, nasserted>>
+AddV(vs) == IF VL!Record(vs) THEN verdicts + Len(vs) ELSE verdicts   \* verdicts: a counter; the records live in a TLC register
 
 J == INSTANCE Jid WITH Classes <- {}, MaxLen <- 0, Emit <- FALSE, s <- <<>>
 
 Verdict(clause, sig, tid, detail) == [prop |-> "C15", clause |-> clause, sig |-> sig, tid |-> tid, idx |-> l, detail |-> detail]
-AddV(vs) == VL!AddVTo(verdicts, vs)
 Ev(n) == l <= Len(Trace) /\ Trace[l].ev = n
 
 Rec(x) == [ok |-> x.ok, n |-> x.n, d |-> x.d, r |-> x.r]
@@ -42,12 +42,12 @@ T_Jid == /\ Ev("jid")
          /\ l' = l + 1
 
 T_End == /\ Ev("end")
-         /\ PrintT(<<"VERDICTS", ToJson(verdicts)>>)
+         /\ PrintT(<<"VERDICTS", ToJson(VL!All)>>)
          /\ PrintT(<<"ASSERTED", nasserted>>)
          /\ PrintT(<<"CONSUMED", l>>)
          /\ l' = l + 1 /\ UNCHANGED <<verdicts, nasserted>>
 
-TraceInit == l = 1 /\ verdicts = <<>> /\ nasserted = 0
+TraceInit == l = 1 /\ verdicts = 0 /\ VL!InitV /\ nasserted = 0
 TraceNext == T_Jid \/ T_End
 TraceSpec == TraceInit /\ [][TraceNext]_tvars
 =============================================================================
